@@ -1,10 +1,12 @@
 /// bytes the segments contribute to the OLD text (Equal and Delete), in order
+#[verifier::opaque]
 pub open spec fn old_side(s: Seq<ByteDiff>) -> Seq<u8>
     decreases s.len()
 {
     if s.len() == 0 { Seq::empty() } else { old_side(s.drop_last()) + (if bd_op(s.last()) == ByteDiffOp::Insert { Seq::<u8>::empty() } else { bd_data(s.last()) }) }
 }
 /// bytes the segments contribute to the NEW text (Equal and Insert), in order
+#[verifier::opaque]
 pub open spec fn new_side(s: Seq<ByteDiff>) -> Seq<u8>
     decreases s.len()
 {
@@ -23,6 +25,7 @@ proof fn lemma_sides_0(s: Seq<ByteDiff>)
     requires s.len() == 0
     ensures old_side(s) =~= Seq::<u8>::empty(), new_side(s) =~= Seq::<u8>::empty()
 {
+    reveal_with_fuel(old_side, 1); reveal_with_fuel(new_side, 1);
 }
 proof fn lemma_sides_1(s: Seq<ByteDiff>)
     requires s.len() == 1
@@ -30,6 +33,7 @@ proof fn lemma_sides_1(s: Seq<ByteDiff>)
         old_side(s) =~= (if bd_op(s[0]) == ByteDiffOp::Insert { Seq::<u8>::empty() } else { bd_data(s[0]) }),
         new_side(s) =~= (if bd_op(s[0]) == ByteDiffOp::Delete { Seq::<u8>::empty() } else { bd_data(s[0]) }),
 {
+    reveal_with_fuel(old_side, 2); reveal_with_fuel(new_side, 2);
     lemma_sides_0(s.drop_last());
     assert(s.last() == s[0]);
 }
@@ -39,6 +43,7 @@ proof fn lemma_sides_2(s: Seq<ByteDiff>)
         old_side(s) =~= (if bd_op(s[0]) == ByteDiffOp::Insert { Seq::<u8>::empty() } else { bd_data(s[0]) }) + (if bd_op(s[1]) == ByteDiffOp::Insert { Seq::<u8>::empty() } else { bd_data(s[1]) }),
         new_side(s) =~= (if bd_op(s[0]) == ByteDiffOp::Delete { Seq::<u8>::empty() } else { bd_data(s[0]) }) + (if bd_op(s[1]) == ByteDiffOp::Delete { Seq::<u8>::empty() } else { bd_data(s[1]) }),
 {
+    reveal_with_fuel(old_side, 2); reveal_with_fuel(new_side, 2);
     lemma_sides_1(s.drop_last());
     assert(s.drop_last()[0] == s[0]);
     assert(s.last() == s[1]);
@@ -94,15 +99,22 @@ fn append_range_diffs(
     if !old_slice.is_empty() {
         diffs.push(ByteDiff::new(ByteDiffOp::Delete, old_slice.as_bytes()));
     }
+    //@ let ghost d1 = diffs@;
     if !new_slice.is_empty() {
         diffs.push(ByteDiff::new(ByteDiffOp::Insert, new_slice.as_bytes()));
     }
     //@ proof {
     //@     let app = diffs@.subrange(d0.len() as int, diffs@.len() as int);
-    //@     if app.len() == 0 { lemma_sides_0(app); }
-    //@     else if app.len() == 1 { assert(app[0] == diffs@[d0.len() as int]); lemma_sides_1(app); }
-    //@     else { assert(app.len() == 2); assert(app[0] == diffs@[d0.len() as int]); assert(app[1] == diffs@[d0.len() as int + 1]); lemma_sides_2(app); }
+    //@     let n0 = d0.len() as int;
+    //@     if ob.len() == 0 && nb.len() == 0 {
+    //@         assert(diffs@ == d0); assert(app.len() == 0); lemma_sides_0(app);
+    //@     } else if ob.len() > 0 && nb.len() == 0 {
+    //@         assert(d1.len() == n0 + 1 && diffs@ == d1); assert(app.len() == 1 && app[0] == d1[n0]); lemma_sides_1(app);
+    //@     } else if ob.len() == 0 && nb.len() > 0 {
+    //@         assert(d1 == d0 && diffs@.len() == n0 + 1); assert(app.len() == 1 && app[0] == diffs@[n0]); lemma_sides_1(app);
+    //@     } else {
+    //@         assert(d1.len() == n0 + 1 && diffs@.len() == n0 + 2 && diffs@[n0] == d1[n0]); assert(app.len() == 2 && app[0] == diffs@[n0] && app[1] == diffs@[n0 + 1]); lemma_sides_2(app);
+    //@     }
     //@ }
 }
 //#end
-
